@@ -60,6 +60,12 @@ Definition py_max (a b : pval) : pval :=
   | _, _ => a
   end.
 
+Definition py_min (a b : pval) : pval :=
+  match a, b with
+  | PVar x, PVar y => if Z.ltb (var_int y) (var_int x) then b else a
+  | _, _ => a
+  end.
+
 (* t.variables(): the None / int leaves of a Term *)
 Fixpoint leaves (t : pval) : list pval :=
   match t with
